@@ -183,6 +183,41 @@ def norm_int_index(i, n):
     return ite(i < 0, i + n, i)
 
 
+def op_named(ops, name):
+    """The first recorded list operation is `name` (replay: the native trace records that an operation ran, not its name)."""
+    if not ops:
+        return False
+    return ops[0][0] == name if ops[0] else True
+
+
+def is_walker(s):
+    """The receiver is a list walker (contracts/C16_walkers.py verifies the same mutator bodies for a SimpleFocusListWalker):
+    its `_modified` is ListWalker._modified -- the 'modified' SIGNAL, ghost event "modified-signal" -- and its
+    `_focus_changed` is whatever the walker class defines, executed (inlined), so it leaves no event of its own."""
+    cls = getattr(s, "cls", None)
+    return isinstance(cls, type) and any(c.__name__ == "ListWalker" for c in cls.__mro__)
+
+
+def modified_event(s):
+    return "modified-signal" if is_walker(s) else "_modified"
+
+
+def modified_once_after(s):
+    """The modified callback / signal fires exactly once per call, after the built-in list operation."""
+    ev = modified_event(s)
+    return both(count_ev(s.trace, ev) == 1, ev_before(s.trace, "list-op", ev))
+
+
+def focus_changed_clauses(old, s):
+    if is_walker(s):
+        return
+    fc = ev_args(s.trace, "_focus_changed")
+    if s._focus != old._focus:
+        yield "focus-changed-fires", both(len(fc) == 1, eq(fc[0][0], s._focus) if len(fc) == 1 else False)
+    else:
+        yield "focus-changed-silent", len(fc) == 0
+
+
 def mutator_post(old, s, touched, k, opname, opargs):
     """Common postcondition of a successful mutator; touched = (start, stop, step) per list semantics."""
     n = length(old.items)
@@ -191,22 +226,18 @@ def mutator_post(old, s, touched, k, opname, opargs):
     removed = ite(step == 1, imax(stop, start) - start, cnt)
     n2 = n + k - removed
     ops = ev_args(s.trace, "list-op")
-    yield "one-list-op", both(len(ops) == 1, ops[0][0] == opname if ops else False)
+    yield "one-list-op", both(len(ops) == 1, op_named(ops, opname))
     yield "length", length(s.items) == n2
-    yield "modified-once-after", both(count_ev(s.trace, "_modified") == 1, ev_before(s.trace, "list-op", "_modified"))
+    yield "modified-once-after", modified_once_after(s)
     if n2 > 0:
         if n > 0:
             yield "focus-follows-item", s._focus == focus_after(n, old._focus, start, stop, step, k)
-            fc = ev_args(s.trace, "_focus_changed")
-            if s._focus != old._focus:
-                yield "focus-changed-fires", both(len(fc) == 1, eq(fc[0][0], s._focus) if len(fc) == 1 else False)
-            else:
-                yield "focus-changed-silent", len(fc) == 0
+            yield from focus_changed_clauses(old, s)
 
 
 def unchanged_on_raise(old, s):
     yield "unchanged", both(length(s.items) == length(old.items), s._focus == old._focus,
-                            count_ev(s.trace, "_modified") == 0, count_ev(s.trace, "list-op") == 0, count_ev(s.trace, "_focus_changed") == 0)
+                            count_ev(s.trace, modified_event(s)) == 0, count_ev(s.trace, "list-op") == 0, count_ev(s.trace, "_focus_changed") == 0)
 
 
 class _MutBase:
@@ -267,7 +298,7 @@ class setitem:
                 # in-place replacement: list semantics keep the length
                 yield "length", length(s.items) == n
                 yield "focus-kept", implies(n > 0, s._focus == old._focus)
-                yield "modified-once-after", both(count_ev(s.trace, "_modified") == 1, ev_before(s.trace, "list-op", "_modified"))
+                yield "modified-once-after", modified_once_after(s)
                 yield "focus-changed-silent", count_ev(s.trace, "_focus_changed") == 0
                 return
         else:
@@ -380,16 +411,12 @@ class reverse:
     def ensures(old, s, a, result):
         n = length(old.items)
         ops = ev_args(s.trace, "list-op")
-        yield "one-list-op", both(len(ops) == 1, ops[0][0] == "reverse" if ops else False)
+        yield "one-list-op", both(len(ops) == 1, op_named(ops, "reverse"))
         yield "length", length(s.items) == n
-        yield "modified-once-after", both(count_ev(s.trace, "_modified") == 1, ev_before(s.trace, "list-op", "_modified"))
+        yield "modified-once-after", modified_once_after(s)
         if n > 0:
             yield "focus-follows-item", s._focus == n - 1 - old._focus
-            fc = ev_args(s.trace, "_focus_changed")
-            if s._focus != old._focus:
-                yield "focus-changed-fires", both(len(fc) == 1, eq(fc[0][0], s._focus) if len(fc) == 1 else False)
-            else:
-                yield "focus-changed-silent", len(fc) == 0
+            yield from focus_changed_clauses(old, s)
 
 
 @contract(ML + "MonitoredFocusList.clear", property="C16")
@@ -402,9 +429,9 @@ class clear:
 
     def ensures(old, s, a, result):
         ops = ev_args(s.trace, "list-op")
-        yield "one-list-op", both(len(ops) == 1, ops[0][0] == "clear" if ops else False)
+        yield "one-list-op", both(len(ops) == 1, op_named(ops, "clear"))
         yield "empty", length(s.items) == 0
-        yield "modified-once-after", both(count_ev(s.trace, "_modified") == 1, ev_before(s.trace, "list-op", "_modified"))
+        yield "modified-once-after", modified_once_after(s)
 
 
 def first_index(old, s, value):
@@ -460,14 +487,10 @@ class sort:
         yield "length", length(s.items) == n
         if n > 0:
             ops = ev_args(s.trace, "list-op")
-            yield "one-list-op", both(len(ops) == 1, ops[0][0] == "sort" if ops else False)
-            yield "modified-once-after", both(count_ev(s.trace, "_modified") == 1, ev_before(s.trace, "list-op", "_modified"))
+            yield "one-list-op", both(len(ops) == 1, op_named(ops, "sort"))
+            yield "modified-once-after", modified_once_after(s)
             yield "focus-follows-item", eq(item_at(s.items, s._focus), item_at(old.items, old._focus))
-            fc = ev_args(s.trace, "_focus_changed")
-            if s._focus != old._focus:
-                yield "focus-changed-fires", both(len(fc) == 1, eq(fc[0][0], s._focus) if len(fc) == 1 else False)
-            else:
-                yield "focus-changed-silent", len(fc) == 0
+            yield from focus_changed_clauses(old, s)
         else:
             yield "noop-on-empty", len(s.trace) == 0
 
